@@ -40,7 +40,9 @@ Shapes == {"unit_struct", "tuple0", "tuple1", "tuple1_unit", "tuple2", "named0",
            "enum_disc64", "enum_disc128", "enum_disc_exprs",
            \* unit items whose NAMES are unusual: non-ASCII first letters (1 char = 2..4 bytes), underscores only, one
            \* character, a raw identifier, digits after the first character
-           "enum_odd_names", "struct_odd_name", "struct_underscores"}
+           "enum_odd_names", "struct_odd_name", "struct_underscores",
+           \* the ATTRIBUTED variant has two fields (tuple / named): type lists of the wrong arity land here
+           "enum_pair", "enum_pair_named"}
 \* "field_pair": the first AND the second field carry an attribute each (two bodies): the derives that read all
 \* fields' attributes together (which marks may be mixed) have code only this reaches
 Positions == {"none", "item", "variant", "field", "field_pair"}
@@ -71,9 +73,9 @@ HasPosition(shape, pos) ==
     CASE pos = "none" -> TRUE
       [] pos = "item" -> TRUE
       [] pos = "variant" -> shape \in {"enum_unit", "enum_tuple", "enum_named", "enum_mixed", "generic_enum", "raw_names", "raw_unit_enum",
-                                           "enum_disc64", "enum_disc128", "enum_disc_exprs", "enum_odd_names"}
+                                           "enum_disc64", "enum_disc128", "enum_disc_exprs", "enum_odd_names", "enum_pair", "enum_pair_named"}
       [] pos = "field" -> shape \notin {"unit_struct", "tuple0", "named0", "enum_empty", "enum_unit", "raw_unit_enum",
                                           "unit_where", "tuple0_where", "named0_where", "enum_empty_where",
                                           "enum_disc64", "enum_disc128", "enum_disc_exprs", "enum_odd_names", "struct_odd_name", "struct_underscores"}
-      [] pos = "field_pair" -> shape \in {"tuple2", "named2", "enum_mixed", "raw_struct", "union", "array_const"}
+      [] pos = "field_pair" -> shape \in {"tuple2", "named2", "enum_mixed", "raw_struct", "union", "array_const", "enum_pair", "enum_pair_named"}
 =============================================================================
